@@ -6,7 +6,7 @@ from ..core import Fail
 
 PID = "C05"
 RULE = ("pairs of shapes of all kinds in general position (int/Fraction exact; a float stream at the property's 1e-5 "
-        "tolerance; circle-vs-square in the thorough tier), pairs sharing one complete boundary curve (a polygon with holes against one of its holes or its complement) and nested expressions; for every moment of order <= 2: "
+        "tolerance; rectangles with a quadratic / cubic arc side against rectangles crossing the arc, float data at 1e-5; circle-vs-square in the thorough tier), pairs sharing one complete boundary curve (a polygon with holes against one of its holes or its complement) and nested expressions; for every moment of order <= 2: "
         "m(A|B)+m(A&B) = m(A)+m(B), m(A-B) = m(A)-m(A&B), m(A^B) = m(A|B)-m(A&B), m(~A) = -m(A), Whole counted as 0; "
         "each operator evaluated on fresh operands, for a third of the exact pairs on operands brought into place by an in-place move / scale after a first use elsewhere; non-trivial = boundaries cross or a composite operand; distinct = SHA-1")
 PROOF_STATUS = ("Props/C05.v: m(~A) = -m(A) for all polygonal shapes (reversal), split leaves the area and the winding "
@@ -44,6 +44,20 @@ def cases(ctx):
     sq = ("S", G.verts_to_jordan(G.ccw([(F(0), F(0)), (F(3), F(0)), (F(3), F(3)), (F(0), F(3))])))
     yield {"env": [sq, ("E",)], "num": "frac"}
     yield {"env": [("W",), sq], "num": "frac"}
+    # curved boundaries of degree 2 and 3 (float data, the property's 1e-5 relative tolerance): a rectangle whose top
+    # side is a quadratic / cubic arc, against a rectangle that crosses the arc and the bottom side
+    for i in range(ctx.n(8, 120)):
+        w, h = rng.choice([3, 4, 6]), rng.choice([2, 3, 5])
+        d = 2 + i % 2
+        us = [rng.choice([-h / 4, h / 3, h / 2, h, 1.5 * h]) for _ in range(d - 1)]
+        cs = sorted(rng.choice([0.1, 0.2, 0.35, 0.5, 0.65, 0.8, 0.9]) for _ in range(d - 1))
+        if len(set(cs)) < len(cs):
+            continue
+        x0 = rng.choice([0.5, 1.0, 1.25, 1.7])
+        x1 = x0 + rng.choice([0.8, 1.1, 1.6])
+        if x1 >= w - 0.2:
+            continue
+        yield {"arcrect": [w, h, us, cs], "cut": [x0, x1], "shift": [rng.choice([0.0, 0.0, 7.5, -3.25]), rng.choice([0.0, 2.0, -11.0])]}
     if ctx.thorough():
         for i in range(12):
             yield {"curved": True, "r": rng.choice([1.0, 1.5]), "c": [rng.choice([0.0, 0.31]), rng.choice([0.0, 0.22])],
@@ -51,7 +65,7 @@ def cases(ctx):
 
 
 def nontrivial(case):
-    if case.get("curved"):
+    if case.get("curved") or case.get("arcrect"):
         return True
     return OC.nontrivial({"env": case["env"]})
 
@@ -88,7 +102,22 @@ def _mk_hist(env, how):
 
 def check(ctx, case):
     fails = []
-    if case.get("curved"):
+    if case.get("arcrect"):
+        w, h, us, cs = case["arcrect"]
+        sx, sy = case["shift"]
+        n = len(us) + 1
+        # abscissae of the control points strictly decreasing (so the arc is a graph over the base), not evenly spaced
+        top = [(w + sx, h + sy)] + [(w - c * w + sx, h + u + sy) for c, u in zip(cs, us)] + [(0.0 + sx, h + sy)]
+        top = [(float(a), float(b)) for a, b in top]
+        ymax = h + max([0.0] + [float(u) for u in us]) + 1.0
+        x0, x1 = case["cut"]
+        def mk():
+            J = I.JordanCurve.from_ctrlpoints([[(sx, sy), (w + sx, sy)], [(w + sx, sy), (w + sx, h + sy)], top, [(sx, h + sy), (sx, sy)]])
+            B = I.Primitive.polygon([(x0 + sx, sy - 1.0), (x1 + sx, sy - 1.0), (x1 + sx, ymax + sy), (x0 + sx, ymax + sy)])
+            return I.SimpleShape(J), B
+        exact, tol = False, F(1, 100000)
+        ctx.count("arc side of degree %d" % n)
+    elif case.get("curved"):
         mk = lambda: (I.Primitive.circle(case["r"], tuple(case["c"]), case["nd"]), I.Primitive.square(case["side"]))
         exact, tol = False, F(1, 100000)
     else:
@@ -125,13 +154,13 @@ def check(ctx, case):
             return x == y
         return abs(x - y) <= tol * max(scale, F(1, 1000))
 
-    if exact and not case.get("curved") and not case.get("shared_curve") and all(x[0] not in "EW" for x in case["env"]):
+    if exact and not case.get("curved") and not case.get("arcrect") and not case.get("shared_curve") and all(x[0] not in "EW" for x in case["env"]):
         # the computable premise of theorem C05_inclusion_exclusion_partial, evaluated by the extracted model
         cov = ctx.model.branch_faithful(case["env"][0], case["env"][1])
         ctx.count("theorem-premise:" + ("holds" if cov else "fails"))
         if not cov:
             ctx.notes.append("C05 premise general_branch_faithful_b fails on a generated case (judged by the oracle only)")
-    if exact and not case.get("curved"):
+    if exact and not case.get("curved") and not case.get("arcrect"):
         # correspondence: the moments of the implementation's results against the model's results
         for op in "|&-^":
             rm = ctx.model.eval_expr(case["env"], (op, ("var", 0), ("var", 1)))
